@@ -95,6 +95,57 @@ def pop_case(sk):
     return None
 
 
+class TaggedBytes(bytes):
+    """a byte-string type that is a proper subclass of bytes (as hexbytes.HexBytes is)"""
+    __slots__ = ()
+
+
+def msgtype_case(suite, sk, msg):
+    """the same message as a bytes-subclass instance: same signature bytes, verifies, and the plain
+    and the subclass forms are interchangeable between Sign and Verify"""
+    S = BL.suite_cls(suite)
+    pk = BL.call(S.SkToPk, sk)
+    plain = BL.call(S.Sign, sk, msg)
+    if pk[0] != "ok" or plain[0] != "ok":
+        return ("Sign", "96 bytes", plain)
+    sub = BL.call(S.Sign, sk, TaggedBytes(msg))
+    if sub != plain:
+        return ("Sign(bytes-subclass message)", plain, sub)
+    for lbl, m_, sg in (("subclass message, plain-message signature", TaggedBytes(msg), plain[1]),
+                        ("subclass message, subclass signature", TaggedBytes(msg), TaggedBytes(plain[1])),
+                        ("plain message, subclass key and signature", msg, TaggedBytes(plain[1]))):
+        k_ = TaggedBytes(pk[1]) if "subclass key" in lbl else pk[1]
+        v = BL.verdict(S.Verify, k_, m_, sg)
+        if v is not True:
+            return ("Verify(%s)" % lbl, True, v)
+    if suite == "pop":
+        pr = BL.call(S.PopProve, sk)
+        v = BL.verdict(S.PopVerify, TaggedBytes(pk[1]), TaggedBytes(pr[1])) if pr[0] == "ok" else pr
+        if v is not True:
+            return ("PopVerify(subclass key and proof)", True, v)
+    return None
+
+
+def task_msgtype(a, env):
+    r = R("bytes-subclass-arguments")
+    for suite in BL.SUITES:
+        for sk in a["sks"]:
+            for msg in (b"", b"abc", bytes(range(64))):
+                bad = msgtype_case(suite, sk, msg)
+                r.ev += 1
+                r.dk.add((suite, sk, msg))
+                if bad:
+                    r.viol("C01:%s:bytes-subclass:%s" % (suite, bad[0].split("(")[0]), ME + ":replay_msgtype",
+                           {"suite": suite, "sk": hex(sk), "msg": msg.hex()}, bad[1], bad[2], note=bad[0])
+    r.sample({"message": "TaggedBytes(b'abc') where class TaggedBytes(bytes)"})
+    return r
+
+
+def replay_msgtype(a):
+    bad = msgtype_case(a["suite"], int(a["sk"], 16), bytes.fromhex(a["msg"]))
+    return None if not bad else {"step": bad[0], "expected": bad[1], "observed": bad[2]}
+
+
 def task_honest(a, env):
     r = R("sign-then-verify:%s" % a["suite"])
     for c in a["cases"]:
@@ -144,7 +195,9 @@ def bad_keys():
     return [("Fraction(5)", Fraction(5)), ("Decimal(5)", Decimal(5)), ("float(5)", 5.0),
             ("Fraction(7,2)", Fraction(7, 2)), ("0", 0), ("r", R_), ("r+1", R_ + 1), ("-1", -1), ("-r", -R_), ("2^255", 2**255), ("2^256", 2**256),
             ("2r", 2 * R_), ("r+2^300", R_ + 2**300), ("None", None), ("str", "1"), ("float", 1.0),
-            ("float-large", 1e30), ("bytes", b"\x01"), ("tuple", (1,)), ("list", [1]), ("complex", 1j)]
+            ("float-large", 1e30), ("bytes", b"\x01"), ("tuple", (1,)), ("list", [1]), ("complex", 1j),
+            # integers with more decimal digits than the interpreter's int -> str conversion limit
+            ("10^5000+7", 10**5000 + 7), ("-10^5000", -(10**5000)), ("2^20000", 2**20000), ("r*2^16000", R_ << 16000)]
 
 
 def reject_case(suite, i, fn, warm=False):
@@ -262,6 +315,8 @@ def run(ctx):
     for i in range(8):
         tasks.append(("pop", {"keys": ks[i::8], "sample": i == 0}))
     tasks.append(("reject", {}))
+    tasks.append(("msgtype", {"sks": [1, 5]}))
+    tasks.append(("msgtype", {"sks": [R_ - 1, 0x1234567890abcdef1234567890abcdef]}))
     kg = [(s, li, lk, f) for s in BL.SUITES for li in (0, 1, 31, 32, 33, 64, 128) for lk in (0, 1, 64)
           for f in ((0,) if ctx.quick else (0, 7))]
     if ctx.quick:
